@@ -240,12 +240,12 @@ var spellings = []string{"a//x", "./b", "c/d/../d/e", "q/"}
 var archiveNames = []string{"a/x", "top/b", "./c", "d//e", "../evil", "/abs", "f/./g", "h"}
 
 func genCase(r *hx.Rand) opCase {
-	kinds := []string{"putpath", "copyreader", "copypath", "copy", "copy", "copy", "untar", "unzip"}
+	kinds := []string{"putpath", "copyreader", "forwriteobject", "copyreadobject", "copypath", "copy", "copy", "copy", "untar", "unzip"}
 	c := opCase{kind: hx.Pick(r, kinds), par: 1, destDisk: r.Chance(1, 4)}
 	switch c.kind {
-	case "putpath", "copyreader", "copypath":
+	case "putpath", "copyreader", "copypath", "forwriteobject", "copyreadobject":
 		p := hx.Pick(r, pathPool)
-		if c.kind != "copypath" && r.Chance(1, 4) {
+		if c.kind != "copypath" && c.kind != "copyreadobject" && r.Chance(1, 4) {
 			p = hx.Pick(r, spellings)
 		}
 		c.objs = []bk.KV{{K: p, V: genContent(r, 0)}}
@@ -294,6 +294,18 @@ func (c opCase) run(faults []prim, tmp string) (err error, fb *faultyBucket, des
 		err = storage.PutPath(ctx, fb, c.objs[0].K, []byte(c.objs[0].V))
 	case "copyreader":
 		err = storage.CopyReader(ctx, fb, plainReader{strings.NewReader(c.objs[0].V)}, c.objs[0].K)
+	case "forwriteobject":
+		err = storage.ForWriteObject(ctx, fb, c.objs[0].K, func(w storage.WriteObject) error {
+			_, err := io.Copy(w, plainReader{strings.NewReader(c.objs[0].V)})
+			return err
+		})
+	case "copyreadobject":
+		src := storagemem.NewReadWriteBucket()
+		must(bk.PutString(ctx, src, c.objs[0].K, c.objs[0].V))
+		ro, e := src.Get(ctx, c.objs[0].K)
+		must(e)
+		err = storage.CopyReadObject(ctx, fb, ro)
+		ro.Close()
 	case "copypath":
 		src := storagemem.NewReadWriteBucket()
 		must(bk.PutString(ctx, src, c.objs[0].K, c.objs[0].V))
@@ -373,7 +385,7 @@ func (c opCase) modelLine(fb *faultyBucket, base map[string][]string, faults []p
 		return nil
 	}
 	switch c.kind {
-	case "putpath", "copyreader":
+	case "putpath", "copyreader", "forwriteobject", "copyreadobject":
 		return "wobj\t" + c.kind + "\t" + hx.Enc(c.objs[0].K) + "\t" + encChunks(chunksOf(c.objs[0].K)) + "\t" + encFaults(faults)
 	case "copypath", "copy":
 		var order []string
@@ -403,7 +415,7 @@ func (c opCase) modelLine(fb *faultyBucket, base map[string][]string, faults []p
 			}
 			es[i] = hx.Enc(o.K) + "=" + encChunks(cs)
 		}
-		return "untar\t" + strings.Join(es, ",") + "\t" + encFaults(faults)
+		return c.kind + "\t" + strings.Join(es, ",") + "\t" + encFaults(faults)
 	}
 }
 
@@ -546,6 +558,19 @@ func partBreadth(run *hx.Run, r *hx.Rand) {
 				must(storagearchive.Zip(ctx, src, cw, true))
 			}
 			total := cw.n
+			for _, pos := range []struct {
+				k           int
+				body, close string
+			}{{0, "1", "0"}, {total - 1, "0", "1"}, {-1, "0", "0"}} {
+				fw := &failingWriter{failAt: pos.k}
+				var err error
+				if kind == "tar" {
+					err = storagearchive.Tar(ctx, src, fw)
+				} else {
+					err = storagearchive.Zip(ctx, src, fw, true)
+				}
+				run.Case("archw\t"+kind+"\t"+pos.body+"\t"+pos.close, okErr(err), pos.k >= 0)
+			}
 			for k := 0; k < total; k++ {
 				fw := &failingWriter{failAt: k}
 				var err error
@@ -854,11 +879,21 @@ func partB(run *hx.Run, r *hx.Rand, tmpRoot string) {
 		b, err := storageos.NewProvider().NewReadWriteBucket(dir)
 		must(err)
 		perr := bk.PutString(ctx, b, "t/inner", newContent+"Z", storage.PutWithAtomic())
-		run.Eval()
-		run.Distinct("rename-onto-dir-" + strconv.Itoa(i))
 		run.Count("B:rename-onto-dir:" + okErr(perr))
 		_, temps := inspect(dir, "t/inner")
 		keep, _ := os.ReadFile(filepath.Join(dir, "t", "inner", "keep"))
+		{
+			// compared with the model's rename-failure branch (failAt = n+2): what is at the
+			// final path (here a directory, token DIR) is untouched and no temp object remains
+			finalS, tempS := "=DIR", "-"
+			if string(keep) != "KEEP" {
+				finalS = "=CHANGED"
+			}
+			if len(temps) > 0 {
+				tempS = "=" + temps[0]
+			}
+			run.Case("atomic\tDIR\t"+encChunksRaw([]string{newContent + "Z"})+"\t3", okErr(perr)+"|final"+finalS+"|temp"+tempS, true)
+		}
 		if perr == nil || len(temps) > 0 || string(keep) != "KEEP" {
 			run.Fail(hx.OracleFailure{Class: "atomic-put-failed-dirty", What: fmt.Sprintf("atomic put whose rename fails: err=%v, leftover temp files=%d, sibling intact=%v", perr, len(temps), string(keep) == "KEEP"),
 				Input: map[string]any{"path": "t/inner"}, Replay: fmt.Sprintf("build/c15 --out /tmp/c15-replay --seed %d --tier %s", run.Seed, run.Tier)})
